@@ -91,6 +91,9 @@ type Model struct {
 	Edges map[string]int
 	// PostHasLeases: listings passed to Apply carry the lease handle and lease_until (private snapshot)
 	PostHasLeases bool
+	// AssumeSwept: how a dequeue applied WITHOUT a listing resolves "a lease that expired less than the sweep
+	// granularity ago and was not returned": swept (true) or left (false). The linearizability search tries both.
+	AssumeSwept bool
 }
 
 func New(cfg Config, now int64) *Model {
@@ -773,6 +776,8 @@ func (m *Model) applyDequeue(op Op, obs *Obs, post map[string]*Msg) string {
 				} else {
 					swept = true // gone: swept then pruned; judged by compareListing
 				}
+			} else {
+				swept = m.AssumeSwept // no listing to look at (linearizability search): the caller tries both
 			}
 		}
 		if swept {
